@@ -360,6 +360,7 @@ fn same_history(plan: &Plan, a: &RunResult, b: &RunResult) -> bool {
         match (x, y) {
             (Ev::PollEnd { task: t1, ready: r1, leaf_pendings: l1, .. }, Ev::PollEnd { task: t2, ready: r2, leaf_pendings: l2, .. }) => t1 == t2 && r1 == r2 && l1 == l2,
             (Ev::SyncEnd { task: t1, .. }, Ev::SyncEnd { task: t2, .. }) => t1 == t2,
+            (Ev::Panicked { task: t1, .. }, Ev::Panicked { task: t2, .. }) => t1 == t2,
             (Ev::CallStart { task: t1, method: m1, n: n1, args: a1, flavor: f1, .. }, Ev::CallStart { task: t2, method: m2, n: n2, args: a2, flavor: f2, .. }) => {
                 t1 == t2 && m1 == m2 && n1 == n2 && a1 == a2 && f1 == f2
             }
@@ -451,7 +452,7 @@ pub fn sample_history(plan: &Plan, apps: &Apps) -> Value {
                 format!("t{task} POLL-END ready={ready} leaf_pendings={leaf_pendings} allocs={allocs} declared={declared}")
             }
             Ev::Cancel { task } => format!("t{task} CANCEL (future dropped here)"),
-            Ev::Panicked { task } => format!("t{task} LEAF PANIC unwound through the call"),
+            Ev::Panicked { task, .. } => format!("t{task} LEAF PANIC unwound through the call"),
             Ev::Construct { task, id } => format!("t{task}   construct moved arg {id}"),
             Ev::Drop { task, id } => format!("t{task}   drop moved arg {id}"),
             _ => continue,
